@@ -191,7 +191,9 @@ class SegStr:
             return None
         return best
 
-    def strip(self, mode='strip', chars=None, strict=False):
+    def strip(self, mode='strip', chars=None, strict=False, sign=None):
+        """``sign``: optional oracle value -> True (not negative) / False (negative) / None for numbers printed with the
+        blank sign flag: the sign column of a non-negative number is a blank and goes with the other blanks"""
         segs = list(self.segs)
 
         def may_start_blank(f):
@@ -201,6 +203,16 @@ class SegStr:
                                        not sp.startswith(('<', '0')))
         if strict and (chars is None or ' ' in chars):
             if mode in ('strip', 'lstrip') and segs and segs[0].kind == 'field' and may_start_blank(segs[0]):
+                f = segs[0]
+                sp = (f.spec or '').lstrip('%')
+                sg = sign(f.value) if sign is not None and sp.startswith(' ') and isinstance(f.width, int) else None
+                if sg is True:
+                    # the same number without its (blank) sign column
+                    segs[0] = Seg('field', value=f.value, width=f.width - 1, cls=f.cls,
+                                  spec=(f.spec or '').replace(' ', '', 1))
+                    return SegStr(segs).strip('rstrip', chars, strict, sign) if mode == 'strip' else SegStr(segs)
+                if sg is False:
+                    return SegStr(segs).strip('rstrip', chars, strict, sign) if mode == 'strip' else SegStr(segs)
                 raise Unsupported('strip() at a formatted number whose first column is a blank for some values: %r'
                                   % (segs[0].value,))
         if mode in ('strip', 'lstrip') and segs and segs[0].kind == 'lit':
